@@ -8,6 +8,7 @@ import itertools
 import numpy as np
 
 from . import common as C
+from translate import c20_tables as TAB
 
 PID = 'C20'
 SHARD_SIZE = 150
@@ -839,6 +840,10 @@ def obs_eq_in(x, S):
         return 'TT' if (x in S) else 'FF'
     except Exception:
         return 'EE'
+
+
+def translate():
+    return {'Gen/C20Tables.v': TAB.translate()}
 
 
 def correspondence(rng, tier):
